@@ -349,7 +349,7 @@ def evalAssign (facts : List String) (r : Regs) (args : List String) : Option Va
   | ["proof", e, ts] => do
     let e ← r.env e
     let ts ← envs r ts
-    pure (match proofContainsSet H AE ZZ e (ts.map Env.digest) with
+    pure (match proofContainsSet H e (ts.map Env.digest) with
       | .ok (some p) => .env p
       | .ok Option.none => .none
       | .err x => .err x
